@@ -371,6 +371,23 @@ class SyncInterpreter(BaseInterpreter[TContext, TEvent]):
                     self._event_queue.clear()
                     break
 
+                # 🏁 A machine that completed, failed or was stopped while this
+                #    batch was being drained ignores the rest of the batch —
+                #    exactly like the asyncio engine, whose run loop ends when
+                #    `status` leaves "running". Without this, an event queued
+                #    behind the one that reached the top-level final state
+                #    (`send_events(["FINISH", "PING"])`) still ran user actions
+                #    on a machine that already reported `done`.
+                if self.status != "running":
+                    logger.debug(
+                        "🛑 Interpreter '%s' is '%s'; ignoring %d queued event(s).",
+                        self.id,
+                        self.status,
+                        len(self._event_queue),
+                    )
+                    self._event_queue.clear()
+                    break
+
                 current_event = self._event_queue.popleft()
                 logger.info("⚙️ Processing event: '%s'", current_event.type)
 
